@@ -384,7 +384,7 @@ pub fn table_exprs(depth2: bool, function: bool) -> Vec<String> {
 // ---------------------------------------------------------------------------------------------
 // Merging sweep
 
-pub const MG_ATOMS: usize = 9;
+pub const MG_ATOMS: usize = 11;
 pub const MG_CONDS: usize = 2;
 
 struct MergeFiller {
@@ -408,7 +408,10 @@ impl Filler for MergeFiller {
             5 => Atom::new("out <-- x", vec![Ev::Assign("out <-- x".into())]),
             6 => Atom::new("mid <-- la[0]", vec![Ev::Assign("mid <-- la[0]".into())]),
             7 => Atom::assign("x", "x + in2"),
-            _ => Atom::assign("la[0]", "in * in * in2"),
+            8 => Atom::assign("la[0]", "in * in * in2"),
+            // calls whose argument is a (possibly loop-carried, hence unbounded) variable
+            9 => Atom::assign("la[0]", "cube(x)"),
+            _ => Atom::assign("x", "inc(x) * in"),
         }
     }
     fn cond(&mut self, _is_loop: bool) -> Cond {
@@ -458,8 +461,8 @@ pub fn run(run: &Run) {
          {literal, parameter, local constant, input signals, in*in, in*in*in2, component port, signal \
          array element with constant/parameter index, local array element, calls with constant / \
          signal arguments} and (thorough) depth-2 combinations over 5 classes; merging sweep: \
-         skeletons x 9 atoms {x=in, x=x*in, x=2, la[0]=cube(in), la[1]=1, out<--x, mid<--la[0], \
-         x=x+in2, la[0]=in*in*in2} x 2 conditions; every node with a claimed bound is evaluated on 6 bases x 5 \
+         skeletons x 11 atoms {x=in, x=x*in, x=2, la[0]=cube(in), la[1]=1, out<--x, mid<--la[0], \
+         x=x+in2, la[0]=in*in*in2, la[0]=cube(x), x=inc(x)*in} x 2 conditions; every node with a claimed bound is evaluated on 6 bases x 5 \
          directions x 4 points; non-trivial = at least one claim was tested on at least one line",
     );
     let (_, p) = real_primes().into_iter().next().unwrap();
